@@ -71,7 +71,7 @@ PROPS = {
         ],
     },
     'C03': {
-        'streams': ['prefix', 'readloop', 'clientread', 'segpair'],
+        'streams': ['prefix', 'readloop', 'clientread', 'segpair', 'connpipe', 'modes03'],
         'shrink': {'prefix': 'hex'},
         'assumptions': [
             "error kinds other than 'incomplete' are one class (the server answers 400 to all of them)",
@@ -86,7 +86,7 @@ PROPS = {
         ],
     },
     'C06': {
-        'streams': ['body', 'clientread'],
+        'streams': ['body', 'clientread', 'connpipe'],
         'shrink': {},
         'assumptions': [
             "std::io::BufReader (capacity 4096: refill only when empty, bypass for reads >= capacity on an empty buffer, read_exact, read_line = read_until + UTF-8 check) is modelled, not verified; pinned by this stream",
@@ -95,7 +95,7 @@ PROPS = {
         ],
     },
     'C10': {
-        'streams': ['conn10', 'modes10'],
+        'streams': ['conn10', 'modes10', 'connpipe'],
         'shrink': {},
         'assumptions': [
             "the inbound TCP stream is a list of segments; a read returns at most one segment (the harness delivers a segment only when the server thread is blocked and has consumed the previous one)",
@@ -103,7 +103,7 @@ PROPS = {
         ],
     },
     'C09': {
-        'streams': ['conn09', 'modes09'],
+        'streams': ['conn09', 'modes09', 'connpipe'],
         'shrink': {},
         'assumptions': [
             "handlers are the harness application (respond / respond with close / Err / respond then Err / read body); the pre-routing hook answers or proceeds",
@@ -112,7 +112,7 @@ PROPS = {
         ],
     },
     'C05': {
-        'streams': ['conn05'],
+        'streams': ['conn05', 'connpipe'],
         'shrink': {},
         'assumptions': [
             "the RFC 9112 6.3 decision is rfc_framing (Spec/Framing.v) over the raw field lines; a lock-step client sends exactly the body its own framing announces",
@@ -139,7 +139,7 @@ PROPS = {
         ],
     },
     'C07': {
-        'streams': ['conn07'],
+        'streams': ['conn07', 'connpipe'],
         'shrink': {},
         'assumptions': [
             "a connection's inbound stream is a list of non-empty segments; a read returns at most one segment; lock-step histories = no segment carries bytes of two requests (Spec/ConnKnown.v lockstep)",
